@@ -1,6 +1,6 @@
 (* C08 — property theorems (statements only; proofs live in Proofs*.v).  See notes/C08.md for the status of each. *)
 From Coq Require Import List ZArith QArith Qabs Bool.
-Require Import QV.C08.Model QV.C08.Spec QV.C08.Wf QV.C08.Proofs QV.C08.ProofsVec QV.C08.ProofsRev QV.C08.ProofsConst QV.C08.ProofsTotal QV.C08.ProofsProper QV.C08.ProofsCtor QV.C08.Hist QV.C08.ProofsHist QV.C08.ProofsTrafo QV.C08.ProofsConstT QV.C08.ProofsTotalT QV.C08.ProofsTable QV.C08.ProofsPar QV.C08.ProofsOp QV.C08.ProofsFlat QV.C08.ProofsDen QV.C08.ProofsSimple QV.C08.ProofsHistT QV.C08.Lin QV.C08.ProofsLin QV.C08.ProofsLinDen QV.C08.ProofsDedup.
+Require Import QV.C08.Model QV.C08.Spec QV.C08.Wf QV.C08.Proofs QV.C08.ProofsVec QV.C08.ProofsRev QV.C08.ProofsConst QV.C08.ProofsTotal QV.C08.ProofsProper QV.C08.ProofsCtor QV.C08.Hist QV.C08.ProofsHist QV.C08.ProofsTrafo QV.C08.ProofsConstT QV.C08.ProofsTotalT QV.C08.ProofsTable QV.C08.ProofsPar QV.C08.ProofsOp QV.C08.ProofsFlat QV.C08.ProofsDen QV.C08.ProofsSimple QV.C08.ProofsHistT QV.C08.Lin QV.C08.ProofsLin QV.C08.ProofsLinDen QV.C08.ProofsDedup QV.C08.ProofsLinHist QV.C08.ProofsR2.
 Import ListNotations.
 Open Scope Q_scope.
 
@@ -301,11 +301,7 @@ Theorem C08_from_transformation_empty_linear_refuted : exists w T w' c t,
   from_transformation w T = OK w' /\ okb (WTrans w T) = true /\ inb c (channels (WTrans w T)) = true /\
   kerr (WTrans w T) c = false /\ t_wfb T = false /\
   oQeqb (sample w' c t) (Some 7) = true /\ oQeqb (sample (WTrans w T) c t) (Some 9) = true.
-Proof.
-  exists (WMulti [WConst 1 3 1%N; WConst 1 4 2%N]),
-         (TChain [TParallel [(3%N, TC 9)]; TLinear [1%N; 2%N] [3%N] [[1; 1]]; TLinear [] [3%N] [[]]]).
-  eexists. exists 3%N, (1#4). vm_compute. repeat split; reflexivity.
-Qed.
+Proof. exact from_transformation_empty_linear_refuted_ex. Qed.
 Print Assumptions C08_from_transformation_empty_linear_refuted.
 
 (* the code denotes what DESIGN 4.4 says, now WITH transformations of any kind (the denotation transforms the complete
@@ -342,12 +338,34 @@ Theorem C08_history_shadow_refuted : exists w calls c ts,
       Qeq_bool a0 7 && Qeq_bool a1 7 && Qeq_bool a2 7 && Qeq_bool f0 2 && Qeq_bool f1 (9#4) && Qeq_bool f2 (5#2)
   | _, _ => false
   end = true.
-Proof.
-  exists (WTrans (WMulti [WConst 1 2 1%N; WTable 2%N [mkE 0 0 Hold; mkE 1 1 Linear]; WTable 3%N [mkE 0 0 Hold; mkE 1 3 Linear]])
-                 (TChain [TParallel [(4%N, TC 7)]; TLinear [1%N; 2%N] [4%N] [[1; 1]]])),
-         [(3%N, 0%N, [0; 1#4; 1#2]); (4%N, 0%N, [0; 1#4; 1#2])], 4%N, [0; 1#4; 1#2].
-  split; [reflexivity|]. split; [reflexivity|]. split; [reflexivity|]. split; [right; left; reflexivity|].
-  split; [|vm_compute; reflexivity].
-  intros c' a' ts' [H|[H|[]]]; injection H as _ _ <-; reflexivity.
-Qed.
+Proof. exact history_shadow_refuted_ex. Qed.
 Print Assumptions C08_history_shadow_refuted.
+
+(* histories, transformations of ANY kind: every transformation is linear-free or passes [lin_ok] for its inner channels
+   (constructor shape, no linear output that shadows a forwarded channel = exactly the class refuted above,
+   get_output_channels defined); if every array object keeps its content the cache stays coherent, by-products included
+   (a by-product and a direct request are both bindings of the complete evaluation), and every call is answered like a
+   single call on a fresh object.  Generalises C08_history. *)
+Theorem C08_history_lin : forall w content calls, okb w = true -> trans_ok_all w = true ->
+  (forall c a ts, In (c, a, ts) calls -> ts = content a) ->
+  run_hist w calls [] = map (fun call => get_sampled w (fst (fst call)) (snd call)) calls.
+Proof. exact history_independent_lin. Qed.
+Print Assumptions C08_history_lin.
+(* bindings of a smaller data set are bindings of the complete evaluation (by-product consistency) *)
+Theorem C08_trafo_byproducts : forall T t (d D o O : data), noshadow T (keys D) = true -> ext d D ->
+  t_point T t d = Some o -> t_point T t D = Some O -> ext o O.
+Proof. exact t_ext_mono. Qed.
+Print Assumptions C08_trafo_byproducts.
+
+(* ---- C08_subset_statement and C08_constructors_statement are FALSE at t = 0 below a reversed sequence (the restricted /
+   optimised waveform folds to a total constant, the original is NaN there: known finding C08-reversed-composite-junction) ---- *)
+Theorem C08_subset_refuted : exists w cs w' c t,
+  okb w = true /\ get_subset w cs = OK w' /\ inb c cs = true /\ Qeq_bool t 0 = true /\ Qltb t (duration w) = true /\
+  sample w' c t = Some 1 /\ sample w c t = None.
+Proof. exact subset_refuted_ex. Qed.
+Print Assumptions C08_subset_refuted.
+Theorem C08_constructors_refuted : exists r w wp c t,
+  build r = OK w /\ build_plain r = OK wp /\ inb c (channels wp) = true /\ Qeq_bool t 0 = true /\ Qltb t (duration wp) = true /\
+  sample w c t = Some 1 /\ sample wp c t = None.
+Proof. exact constructors_refuted_ex. Qed.
+Print Assumptions C08_constructors_refuted.
